@@ -46,5 +46,4 @@ try:
         print(r.stdout[-500:])
 finally:
     subprocess.call(['git', '-C', '/repo', 'worktree', 'remove', '--force', wt])
-    # evidence/replays written by the mutated run are not evidence for the real tree
-    subprocess.call(['git', '-C', '/verif', 'checkout', '--', 'evidence'], stderr=subprocess.DEVNULL)
+    import shutil; shutil.rmtree('/tmp/verif_out_' + os.path.basename(wt), ignore_errors=True)
